@@ -16,7 +16,7 @@
 static int trial, scen;
 static _Atomic long ticker_count;
 static _Atomic int stop_ticker;
-static vp_counter_t *c_trials, *c_bytes, *c_calls[12], *c_short, *c_blocked_calls, *c_nb_calls, *c_invalid_calls, *c_close_wakes, *c_accepts, *c_dgrams, *c_scen[16];
+static vp_counter_t *c_trials, *c_bytes, *c_calls[12], *c_short, *c_blocked_calls, *c_nb_calls, *c_restore_fcntl, *c_invalid_calls, *c_close_wakes, *c_accepts, *c_dgrams, *c_scen[16];
 static const char* const call_names[12] = {"io_read", "io_recv", "io_readv", "io_recvfrom", "io_recvmsg", "io_write", "io_send", "io_writev", "io_sendto", "io_sendmsg", "io_accept", "io_connect"};
 
 // errno is thread-local and a fiber may come back from a blocking call on another kernel thread, while the compiler
@@ -254,6 +254,17 @@ static void scen_streams(uint64_t* rng) {
       shrink(sv[0]);
       shrink(sv[1]);
     }
+    if (type != 1 && (vp_rand(rng) % 3) == 0) {
+      // an application that went non-blocking for a moment and restored the original flags: the streams below still have to park
+      // only their own fiber when a buffer is full or empty
+      int e;
+      for (e = 0; e < 2; ++e) {
+        const int fl = fcntl(sv[e], F_GETFL, 0);
+        fcntl(sv[e], F_SETFL, fl | O_NONBLOCK);
+        fcntl(sv[e], F_SETFL, fl & ~O_NONBLOCK);
+      }
+      vp_add(c_restore_fcntl, 1);
+    }
     static const size_t totals[] = {1, 100, 4096, 65536, 300000, 1500000};
     conn_t* c = &conns[2 * k];
     memset(c, 0, sizeof(*c));
@@ -331,7 +342,7 @@ static void* guard_writer(void* a) {
 }
 static void scen_nonblocking(fb_slot_t* me, uint64_t* rng) {
   int sv[2];
-  const int way = (int)(vp_rand(rng) % 5);
+  const int way = (int)(vp_rand(rng) % 6);
   if (socketpair(AF_UNIX, SOCK_STREAM, 0, sv)) return;
   guard_fd = sv[1];
   fb_slot_t* g = fb_spawn(guard_writer, NULL);
@@ -355,15 +366,23 @@ static void scen_nonblocking(fb_slot_t* me, uint64_t* rng) {
       nb_probe(me, sv[0], "MSG_DONTWAIT", 1);
       break;
     default: {
-      // back to blocking mode: the call must wait for the guard's byte instead of failing with EAGAIN
-      fcntl(sv[0], F_SETFL, O_NONBLOCK);
+      // back to blocking mode: the call must wait for the guard's byte instead of failing with EAGAIN - and it must wait as a fiber:
+      // the kernel thread stays available (on one kernel thread the guard could otherwise never run)
       int zero = 0;
-      ioctl(sv[0], FIONBIO, &zero);
+      if (way == 4) {
+        fcntl(sv[0], F_SETFL, O_NONBLOCK);
+        ioctl(sv[0], FIONBIO, &zero);
+      } else {
+        const int fl = fcntl(sv[0], F_GETFL, 0);
+        fcntl(sv[0], F_SETFL, fl | O_NONBLOCK);
+        fcntl(sv[0], F_SETFL, fl & ~O_NONBLOCK);  // "go non-blocking briefly, then restore"
+        vp_add(c_restore_fcntl, 1);
+      }
       char b[4];
       vp_errno_clear();
       ssize_t r = -1;
       FB_BLOCKING(me, "C08 read", r = read(sv[0], b, sizeof(b)));
-      eagain_check("read after ioctl(FIONBIO, 0)", 1, r, vp_errno());
+      eagain_check(way == 4 ? "read after ioctl(FIONBIO, 0)" : "read after fcntl(F_SETFL, flags & ~O_NONBLOCK)", 1, r, vp_errno());
       if (r != 1) vp_violation("C08", "io:blocking-restored", "trial %d: read after switching back to blocking mode returned %zd (errno %d)", trial, r, vp_errno());
       break;
     }
@@ -817,6 +836,7 @@ static void* root(void* x) {
   c_short = vp_counter("io_short_writes");
   c_blocked_calls = vp_counter("io_calls_that_suspended_the_fiber");
   c_nb_calls = vp_counter("io_nonblocking_probes");
+  c_restore_fcntl = vp_counter("io_blocking_mode_restored_via_fcntl");
   c_invalid_calls = vp_counter("io_invalid_descriptor_probes");
   c_close_wakes = vp_counter("io_readers_woken_by_close");
   c_accepts = vp_counter("io_connections_accepted_with_several_acceptors");
